@@ -24,7 +24,7 @@ func TestC16Window(t *testing.T) {
 		return
 	}
 	points := []string{"buf.readwait.prewait", "buf.peek.prewait", "buf.wspace.prewait"}
-	causes := []string{"abrupt", "server-close", "disconnect"}
+	causes := []string{"abrupt", "server-close", "disconnect", "keepalive"}
 	reps := pick(3, 20)
 	i := 0
 	for rep := 0; rep < reps; rep++ {
@@ -36,14 +36,14 @@ func TestC16Window(t *testing.T) {
 					continue
 				}
 				out.Begin(id, caseSeed("c16w", i), nil)
-				c16Window(pt, cause, caseSeed("c16w", i))
+				c16Window(pt, cause, caseSeed("c16w", i), "c16")
 				out.End()
 			}
 		}
 	}
 }
 
-func c16Window(point, cause string, seed uint64) {
+func c16Window(point, cause string, seed uint64, pfx string) {
 	params := map[string]interface{}{"window": point, "cause": cause}
 	fail := func(sig, desc string) { out.Violation(sig, desc, params) }
 	w := newWorld(worldCfg{BufferSize: 16384})
@@ -71,7 +71,11 @@ func c16Window(point, cause string, seed uint64) {
 	}
 	wit.SendPacket(&rc.Packet{Type: rc.SUBSCRIBE, ID: 1, Filters: [][]byte{[]byte("will/#")}, QoSs: []byte{1}})
 	wit.WaitFor(func(l []rawclient.Event, closed bool) bool { return countType(l, rc.SUBACK) == 1 }, 10*time.Second)
-	V := connect("V", connectOpts{ClientID: "V", Clean: true, KeepAlive: 600, Will: &rc.Packet{Topic: []byte("will/V"), QoS: 1, Payload: spec.MakePayload(7001, 0, 30)}})
+	ka := uint16(600)
+	if cause == "keepalive" {
+		ka = 1
+	}
+	V := connect("V", connectOpts{ClientID: "V", Clean: true, KeepAlive: ka, Will: &rc.Packet{Topic: []byte("will/V"), QoS: 1, Payload: spec.MakePayload(7001, 0, 30)}})
 	if V == nil {
 		out.Inconclusive("victim", nil)
 		return
@@ -87,10 +91,29 @@ func c16Window(point, cause string, seed uint64) {
 	var armed int32
 	hit := make(chan struct{}, 1)
 	var once sync.Once
+	var heldObj atomic.Value
+	closing := make(chan struct{})
+	var closingOnce sync.Once
 	h := func(pt string, obj interface{}) {
+		if pt == "buf.close.afterdone" && cause == "keepalive" {
+			if o := heldObj.Load(); o != nil && o == obj {
+				closingOnce.Do(func() { close(closing) })
+			}
+			return
+		}
 		if pt == point && atomic.LoadInt32(&armed) == 1 {
 			once.Do(func() {
+				heldObj.Store(obj)
 				hit <- struct{}{}
+				if cause == "keepalive" {
+					// nobody ends the connection: the keep-alive does. Stay in the window (the caller holds
+					// the condition's mutex: delay only) until this very ring is being closed, however long
+					// the expiry takes, then a little longer
+					select {
+					case <-closing:
+					case <-time.After(8 * time.Second):
+					}
+				}
 				time.Sleep(4 * time.Millisecond) // the caller holds the condition's mutex: delay only
 			})
 		}
@@ -112,9 +135,23 @@ func c16Window(point, cause string, seed uint64) {
 			out.Inconclusive("publisher", nil)
 			return
 		}
-		atomic.StoreInt32(&armed, 1)
-		for k := 0; k < 14; k++ {
-			P.SendPacket(&rc.Packet{Type: rc.PUBLISH, Topic: []byte("to/v"), Payload: spec.MakePayload(uint64(k+1), 0, 3000)})
+		// 10 of these fill V's outgoing ring, the next delivery waits for space there. They are sent
+		// one by one behind a PINGREQ/PINGRESP barrier until 8 are through, then 5 at once (7.5 KB):
+		// P's own inbound ring never holds more than 8 KB, so P's receiver never waits for space and the
+		// only producer that can reach the armed point is P's processor on V's ring
+		for k := 0; k < 13; k++ {
+			P.SendPacket(&rc.Packet{Type: rc.PUBLISH, Topic: []byte("to/v"), Payload: spec.MakePayload(uint64(k+1), 0, 1500)})
+			if k < 8 {
+				P.SendPacket(&rc.Packet{Type: rc.PINGREQ})
+				want := k + 1
+				if P.WaitFor(func(l []rawclient.Event, closed bool) bool { return countType(l, rc.PINGRESP) >= want }, 10*time.Second) != nil {
+					out.Inconclusive("publisher barrier", params)
+					return
+				}
+			}
+			if k == 7 {
+				atomic.StoreInt32(&armed, 1)
+			}
 		}
 	}
 	select {
@@ -133,9 +170,15 @@ func c16Window(point, cause string, seed uint64) {
 		V.Close()
 	case "server-close":
 		go func() { defer func() { recover() }(); w.svr.Close() }()
+	case "keepalive":
+		// V stays silent from here on; the broker ends the connection after 1.5 K at the latest
 	}
 	// teardown must finish: one stop.done for V
-	ok := w.sink.waitCount("stop.done", "V", 1, 3*time.Second)
+	patience := 3 * time.Second
+	if cause == "keepalive" {
+		patience = 8 * time.Second
+	}
+	ok := w.sink.waitCount("stop.done", "V", 1, patience)
 	if !ok {
 		// decide by goroutine state
 		ids := func() []int {
@@ -153,7 +196,7 @@ func c16Window(point, cause string, seed uint64) {
 			}
 			sort.Strings(tops)
 			d := map[string]interface{}{"window": point, "cause": cause, "stack": stuck[0].stack}
-			out.Violation("c16:teardown-stuck:"+strings.Join(uniq(tops), "+"), fmt.Sprintf("connection ended (%s) while a goroutine was between its done-check and Cond.Wait at %s: teardown never finished; parked: %v", cause, point, uniq(tops)), d)
+			out.Violation(pfx+":teardown-stuck:"+strings.Join(uniq(tops), "+"), fmt.Sprintf("connection ended (%s) while a goroutine was between its done-check and Cond.Wait at %s: teardown never finished; parked: %v", cause, point, uniq(tops)), d)
 			return
 		}
 		if w.sink.count("stop.done", "V") < 1 {
@@ -161,12 +204,55 @@ func c16Window(point, cause string, seed uint64) {
 			return
 		}
 	}
-	if cause == "abrupt" {
+	if cause == "abrupt" || cause == "keepalive" {
 		if err := wit.WaitFor(func(l []rawclient.Event, closed bool) bool { return len(publishesIn(l)) >= 1 }, 5*time.Second); err != nil {
-			fail("c16:will", "the will of the abruptly closed connection did not reach the witness")
+			fail(pfx+":will", "the will of the abruptly closed connection did not reach the witness")
 			return
 		}
 	}
-	out.Count("c16.window_cells", 1)
+	if P != nil && cause != "server-close" {
+		// the publisher whose delivery was parked on V's ring must be released by V's teardown
+		n := countType(P.Log(), rc.PINGRESP)
+		P.SendPacket(&rc.Packet{Type: rc.PINGREQ})
+		if P.WaitFor(func(l []rawclient.Event, closed bool) bool { return countType(l, rc.PINGRESP) > n }, 5*time.Second) != nil {
+			var tops []string
+			for _, g := range libGoroutines() {
+				tops = append(tops, g.libTop()+":"+g.state)
+			}
+			sort.Strings(tops)
+			if out.EnvStr("VERIF_DEBUG", "") != "" {
+				for _, g := range libGoroutines() {
+					fmt.Println("=== G", g.id, g.state)
+					fmt.Println(g.stack)
+				}
+			}
+			fail(pfx+":publisher-parked-on-dead-ring:"+strings.Join(uniq(tops), "+"), fmt.Sprintf("V's teardown finished, but the publisher whose delivery was waiting for space in V's outgoing ring does not answer a PINGREQ (closed=%v); library goroutines: %v", P.Closed(), uniq(tops)))
+			return
+		}
+	}
+	out.Count(pfx+".window_cells", 1)
 	out.Class(fmt.Sprintf("window/%s/%s", point, cause))
+}
+
+// TestC19Window: the keep-alive expiry itself ends the connection while one of its
+// goroutines is inside the check-to-Wait window (same scenario code as the C16
+// window cells, cause "keepalive" only; signatures and counters under c19).
+func TestC19Window(t *testing.T) {
+	if raceEnabled {
+		return
+	}
+	reps := pick(2, 12)
+	i := 0
+	for rep := 0; rep < reps; rep++ {
+		for _, pt := range []string{"buf.readwait.prewait", "buf.peek.prewait", "buf.wspace.prewait"} {
+			i++
+			id := fmt.Sprintf("c19/window/%s/%d", pt, rep)
+			if !mine(i) || !out.Only(id) {
+				continue
+			}
+			out.Begin(id, caseSeed("c19w", i), nil)
+			c16Window(pt, "keepalive", caseSeed("c19w", i), "c19")
+			out.End()
+		}
+	}
 }
